@@ -782,6 +782,37 @@ def constant_coefficient_phase(ctx, tmpdir):
                                   "apply with loaded statistics == apply of the object that saved them", tags=dict(clause="given_statistics", source=ext or "raw"))
 
 
+def refused_call_phase(ctx):
+    """an accumulate call that is REFUSED (ValueError: wrong feature dimension, empty array) leaves the statistics exactly as
+    they were: the transform afterwards is that of the vectors actually accumulated"""
+    p = post()
+    rs = np.random.RandomState(1614)
+    for as_tensor in (True, False):
+        A = rs.normal(size=(30, 4)) * 3 + 7
+        probe = A[:3].copy()
+        want = (probe - A.mean(0)) / A.std(0)
+        for bad in (rs.normal(size=(11, 5)), rs.normal(size=(6, 3)), rs.normal(size=5), np.zeros((0, 4))):
+            case = dict(kind="refused_accumulate", as_tensor=as_tensor, refused_shape=list(bad.shape))
+            ctx.case(case, kind="refused_accumulate")
+            st = p.Standardize(norm_var=True)
+            st.accumulate(A[:12]) if as_tensor else [st.accumulate(v) for v in A[:12]]
+            try:
+                st.accumulate(bad)
+                ctx.count("refused_call_was_accepted")
+                continue      # accepted after all: another shape rule, nothing to check here
+            except ValueError:
+                pass
+            except Exception as e:
+                ctx.violation(case, "ValueError", "%s: %s" % (type(e).__name__, str(e)[:120]), "a feature-dimension mismatch raises ValueError",
+                              tags=dict(clause="raises", where="refused_accumulate"))
+                continue
+            st.accumulate(A[12:]) if as_tensor else [st.accumulate(v) for v in A[12:]]
+            got = st.apply(probe.copy())
+            if got.shape != want.shape or not np.allclose(got, want, rtol=1e-9, atol=1e-9):
+                ctx.violation(case, want[0].tolist(), got[0].tolist(), "(x - mean) / sqrt(var) of the vectors ACCUMULATED so far - a refused call accumulates nothing",
+                              tags=dict(clause="accumulate_any_split", where="refused_accumulate"))
+
+
 def big_call_phase(ctx):
     """'any split of the data into accumulate calls gives the same transform', at sizes where an implementation might work
     in blocks: thousands of vectors in ONE call against the same data in two calls, many single vectors, a rank-3 tensor
@@ -832,6 +863,7 @@ def run(ctx, driver):
             warnings.simplefilter("ignore")
             given_statistics_phase(ctx, tmpdir)
             big_call_phase(ctx)
+            refused_call_phase(ctx)
             constant_coefficient_phase(ctx, tmpdir)
             for case in corpus():
                 eval_case(ctx, case, tmpdir, lines, pending)
